@@ -170,6 +170,31 @@ def stepper(case, clauses, known_ops=()):
             if "invariant" in clauses:
                 _invariants(case, cfg, mem, backing, L, pool_words, blk_bytes, f"after op {k} reset()")
             continue
+        if op[0] == "i":
+            # pure queries on the memory system itself (what a front end calls after every step): statistics, cache table,
+            # memory table, and the residency query of the cache.  They are not accesses: every later operation is judged
+            # as if they had not happened, and the answers must describe the current state
+            na = op[2] & M32
+            h0, a0, last0 = cstats()
+            c0 = pm.cycles
+            try:
+                mem.cache_repr()
+                mem.wordwise_repr()
+                inside = None
+                cache = getattr(mem, "cache", None)
+                if cache is not None and hasattr(cache, "contains"):
+                    from architecture_simulator.uarch.memory.decoded_address import DecodedAddress
+                    inside = bool(cache.contains(DecodedAddress(cfg["idx"], cfg["blk"], na)))
+            except Exception as ex:
+                raise Violation("unexpected-exception", case, f"op {k} {op} (inspection): {type(ex).__name__}: {ex}")
+            tags.add("inspect")
+            if (cstats(), pm.cycles) != ((h0, a0, last0), c0):
+                raise Violation("inspection-counted", case, f"op {k} {op}: counters {(h0, a0, last0)}->{cstats()}, cycles {c0}->{pm.cycles}")
+            if inside is not None and "resident" in clauses and len({m.resident(na) for m in models.values()}) == 1 and inside != ref.resident(na):
+                raise Violation("residency-query", case, f"op {k} {op}: contains({na:#x}) = {inside}, reference cache says {ref.resident(na)}")
+            if "invariant" in clauses:
+                _invariants(case, cfg, mem, backing, L, pool_words, blk_bytes, f"after op {k} {op}")
+            continue
         rw, w, addr = op[0], op[1], op[2]
         na = addr & M32
         for pa in (na & ~3, (na + w - 1) & M32 & ~3):
@@ -408,11 +433,15 @@ def history_case(draw, accepted_only=False, max_ops=60, small=None):
         off = sub % 4 if w == 1 else (sub % 2) * 2
         return [a + off, v & ((1 << (8 * w)) - 1), w]
 
+    inspect = draw(st.integers(0, 2)) == 0       # a third of the histories interleave pure queries with the accesses
     pre = draw(st.lists(st.builds(mkpre, st.integers(0, ntags - 1), st.sampled_from(sets), st.integers(0, 7), values,
                                   st.sampled_from([4, 4, 1, 2]), st.integers(0, 3)), max_size=6))
     @st.composite
     def op(draw):
         rw = draw(st.sampled_from(["r", "r", "w", "w", "ru", "wz"] if pre else ["r", "r", "w", "w", "ru"]))
+        if inspect and draw(st.integers(0, 3)) == 0:
+            a = draw(addr_s())
+            return ["i", 4, a - a % 4]
         if rw == "wz":
             # overwrite a preloaded location with zero, same width (a word may become all-zero again)
             pe = draw(st.sampled_from(pre))
@@ -459,7 +488,7 @@ def tiny_alphabet(cfg, with_rejected=True):
     ops = [
         ["r", 4, A, True], ["w", 4, A, 0x11111111], ["r", 1, A + 1, True], ["w", 1, A + 1, 0xAB],
         ["r", 4, C + second, True], ["w", 4, C + second, 0x22222222], ["r", 4, D, True], ["w", 2, D + 2, 0x3344],
-        ["r", 4, A, False], ["w", 2, A + second, 0xBEEF],
+        ["r", 4, A, False], ["w", 2, A + second, 0xBEEF], ["i", 4, A],
     ]
     if with_rejected:
         ops += [["w", 2, A + 3, 0x5566], ["r", 2, A + 3, True], ["w", 4, C + 2, 0x77777777]]
@@ -493,6 +522,13 @@ def partial_fill_cases():
                 ops = [["r", 4, t * stride, True] for t in sel] * 2 + [["w", 4, 0, 0xABCD0123], ["r", 4, 0, True]] \
                     + [["r", 1, t * stride + 1, False] for t in sel] + [["w", 2, 2, 0x7788], ["r", 4, 0, True]]
                 yield {"cfg": cfg, "pre": [[0, 0x11], [stride, 0x22]], "ops": ops}
+                if fill == len(order):
+                    # the same history with the pure queries after every access (residency asked for the block touched
+                    # two accesses ago, i.e. one that is resident but not the most recently used)
+                    ins = []
+                    for i, o in enumerate(ops):
+                        ins += [o, ["i", 4, ops[i - 2][2] & ~3 if i >= 2 else 0]]
+                    yield {"cfg": cfg, "pre": [[0, 0x11], [stride, 0x22]], "ops": ins}
 
 
 def corpus():
